@@ -588,3 +588,78 @@ func c17R7(c *Ctx) {
 		c.Floor(rule, "completing paths of Client.Close", owners, 1)
 	}
 }
+
+// c17R8: what Handshake reports follows from the state it observed last. The stored handshake error c.err
+// is the raw error of the attempt; whether a caller is told that error, nil or end-of-stream depends on
+// the lifecycle state after the attempt (Close may have taken over meanwhile). So c.err is returned only
+// on paths where the most recent load of c.state, made after any wait on handshakeDone, was found equal
+// to the error state. A waiter that returns c.err right after the wait reports "use of closed network
+// connection" instead of end-of-stream when Close interrupted the handshake.
+func c17R8(c *Ctx) {
+	P := c.P
+	const rule = "C17.R8"
+	c.Rule(rule, "results follow the state observed last: Client.Handshake returns the stored error c.err only where the latest load of c.state, made after any wait on handshakeDone, was found to be the error state (a waiter released by Close must re-evaluate the state and report end-of-stream) (E1 decision table)")
+	fn := P.Func("transport", "(*Client).Handshake")
+	fErr := P.Field("transport", "Client", "err")
+	fState := P.Field("transport", "Client", "state")
+	fDone := P.Field("transport", "Client", "handshakeDone")
+	if fn == nil || fErr == nil || fState == nil || fDone == nil {
+		c.Undecided(rule, "transport.(*Client).Handshake", "function or fields not found")
+		return
+	}
+	errState := pkgConst(P, "transport", "clientStateError")
+	name := FuncName(fn)
+	c.Analysed(name)
+	fs := newFailSet()
+	n := 0
+	ok := walkAll(c, rule, fn, func(p *Path) {
+		r := p.Returns()
+		if r == nil || len(r.Results) != 1 {
+			return
+		}
+		last := len(p.Blocks) - 1
+		v := p.Resolve(r.Results[0], last)
+		if u, isLoad := strip(v).(*ssa.UnOp); !isLoad || u.Op != token.MUL || lastField(u) != fErr {
+			return
+		}
+		n++
+		// the latest state load on the path, and whether a wait on handshakeDone follows it
+		var latest *ssa.Call
+		waitedAfter := false
+		p.ForEach(func(i int, ins ssa.Instruction) bool {
+			switch x := ins.(type) {
+			case *ssa.Call:
+				if f := calleeFunc(&x.Call); f != nil && f.Name() == "Load" && !x.Call.IsInvoke() && len(x.Call.Args) == 1 && lastField(x.Call.Args[0]) == fState {
+					latest, waitedAfter = x, false
+				}
+			case *ssa.UnOp:
+				if x.Op == token.ARROW && lastField(x.X) == fDone {
+					waitedAfter = true
+				}
+			}
+			return true
+		})
+		okState := false
+		if latest != nil && !waitedAfter {
+			for key, val := range p.FactsAt(last) {
+				if key.op != token.EQL || key.y == nil || !val {
+					continue
+				}
+				for _, pr := range [][2]ssa.Value{{key.x, key.y}, {key.y, key.x}} {
+					if strip(pr[0]) == ssa.Value(latest) {
+						if k, isC := constInt(pr[1]); isC && k == errState {
+							okState = true
+						}
+					}
+				}
+			}
+		}
+		if !okState {
+			fs.add("err-only-in-error-state", "Handshake returns the stored error c.err on a path where the state loaded last (after any wait on handshakeDone) was not found to be the error state: a caller released by Close is told the raw socket error instead of end-of-stream", p.Exit(), p)
+		}
+	})
+	if ok {
+		fs.report(c, rule, name, []string{"err-only-in-error-state"}, P.Pos(fn.Pos()), fmt.Sprintf("holds on all %d paths that return c.err", n))
+		c.Floor(rule, "paths of Handshake that return c.err", n, 1)
+	}
+}
